@@ -32,6 +32,7 @@ class Sched:
         self.trace = []            # (thread, yield no, tag) for diagnostics
         self.switches = 0
         self.seq = 0
+        self.lock_log = []         # (seq, thread index, id(lock)) for every acquisition by a scheduled thread
 
     # -- registration -------------------------------------------------------
     def me(self):
@@ -167,6 +168,8 @@ class CoopLock:
                 return False
             s.block_on(self)
         self._owner = s.me()
+        s.seq += 1
+        s.lock_log.append((s.seq, s.me(), id(self)))
         return True
 
     def release(self):
